@@ -250,9 +250,10 @@ def sigma_filter(filename, region, step_size, box_size, shape, domask,
     logging.debug(" ... done writing bkg")
 
     # wait for all to complete
-    i = barrier.wait()
-    if i == 0:
-        barrier.reset()
+    # (the barrier recycles itself once all parties have passed, calling
+    # reset() here would break the wait of a faster worker that has already
+    # reached the next barrier)
+    barrier.wait()
 
     logging.debug("background subtraction")
     data[0 + ymin - data_row_min: data.shape[0] -
@@ -279,9 +280,7 @@ def sigma_filter(filename, region, step_size, box_size, shape, domask,
 
     if domask:
         # wait for all to complete
-        i = barrier.wait()
-        if i == 0:
-            barrier.reset()
+        barrier.wait()
 
         logging.debug("applying mask")
         mask = ~np.isfinite(
